@@ -11,7 +11,7 @@ import progs  # noqa: E402
 FEATURES = {'weights': {'define': 6, 'call': 6, 'assign': 5, 'print': 5, 'action': 1, 'setreg': 1,
                         'repeat': 3, 'if': 3, 'wait': 0, 'units': 0, 'timeat': 0, 'macro': 0, 'get': 0},
             'recursion': True, 'shadow': 0.8, 'zones': False, 'matrix': False, 'default': False,
-            'none_values': True}
+            'none_values': True, 'shared_names': True}
 
 
 def num(v):
@@ -66,6 +66,27 @@ def corpus():
                                                           [('stage', (num(0), None), None, False)])]),
                                        P(v('p'))]),
                 ('call', 'm', [num(4)], False)])
+    # each call has its own locals: a parameterless helper assigning the same names as its caller's
+    # parameter and local must not change them (from a loop, from an if, and as an argument)
+    out.append([('define', 'helper', [], [('assign', 'a', num(99)), ('assign', 't', num(100)), ('return', num(1))]),
+                ('define', 'f', ['a', 'b'], [('assign', 't', v('b')), ('call', 'helper', [], False),
+                                             P(v('a')), P(v('t')),
+                                             ('repeat', ('count', num(2)), [('call', 'helper', [], False), P(v('a'))]),
+                                             ('if', ('expr', ('bin', '>', v('a'), num(0))),
+                                              [('call', 'helper', [], False)], None),
+                                             P(('expr', ('bin', '+', v('a'), ('call', 'helper', [])))),
+                                             P(v('t'))]),
+                ('call', 'f', [num(1), num(2)], False)])
+    # a local of a parameterless routine called from the top level is gone afterwards and does
+    # not become a variable shared by the activations of a recursive routine
+    out.append([('define', 'init', [], [('assign', 'acc', num(1))]),
+                ('call', 'init', [], False),
+                ('define', 'fact', ['n'], [('assign', 'acc', v('n')),
+                                           ('if', ('expr', ('bin', '>', v('n'), num(1))),
+                                            [('assign', 'r', ('call', 'fact', [('expr', ('bin', '-', v('n'), num(1)))])),
+                                             ('return', ('expr', ('bin', '*', v('acc'), v('r'))))], None),
+                                           ('return', num(1))]),
+                P(('call', 'fact', [num(4)]))])
     return [(prog, pop) for prog in out]
 
 
